@@ -111,9 +111,20 @@ func TestReplay(t *testing.T) {
 	if err := json.Unmarshal(b, &r); err != nil {
 		t.Fatalf("cannot decode replay: %v", err)
 	}
-	if msg := replayOnce(r); msg != "" {
+	// every replay runs under the CPU-time bound: a saved case of any kind may
+	// be one on which the library (again) does not return
+	done := make(chan string, 1)
+	go func() { done <- replayOnce(r) }()
+	msg, ok := run.AwaitBounded(done)
+	if !ok {
+		msg = "library call did not return within " + run.HangLimit.String() + " of CPU time"
+	}
+	if msg != "" {
 		fmt.Printf("REPLAY-VIOLATION %s/%s: %s\n", r.Property, r.Check, msg)
 		t.Fail()
+		if !ok {
+			os.Exit(1) // the stuck goroutine cannot be stopped
+		}
 		return
 	}
 	fmt.Println("REPLAY-OK")
